@@ -38,9 +38,17 @@ const (
 	c13kSetup = iota
 	c13kCheck
 	c13kTeardown
+	c13kEniGone // policy-route: the shared ENI disappears (detached behind terway's back)
 )
 
-var c13kOpNames = []string{"setup", "check", "teardown"}
+var c13kOpNames = []string{"setup", "check", "teardown", "eni-gone"}
+
+// how TeardownCfg names the ENI
+const (
+	c13kIdxReal  = iota // the index of the ENI (stale once the ENI is gone)
+	c13kIdxZero         // 0: the CNI could not resolve the ENI's MAC any more
+	c13kIdxStale        // a positive index no link has (ENI re-attached under a new index)
+)
 
 type c13kPod struct {
 	IP4     string     `json:"ip4"`
@@ -52,6 +60,10 @@ type c13kPod struct {
 	Extra   []c13Extra `json:"extra"`
 	NoPeer  bool       `json:"no_peer"`
 	Wide16  bool       `json:"wide16"`
+	// policy-route only: before Setup the host namespace still holds rules for this very
+	// address that point into another interface's table (a pod that lost its teardown, an
+	// ENI that came back under a new index)
+	Stale bool `json:"stale_rules"`
 	// exclusive ENI only: a second interface eth1 on its own ENI (MultiNetwork)
 	Multi    bool   `json:"multi"`
 	IP4b     string `json:"ip4_eth1"`
@@ -78,9 +90,9 @@ type c13kScenario struct {
 	HostStack    []string  `json:"host_stack"`
 	Pods         []c13kPod `json:"pods"`
 	Ops          []c13kOp  `json:"ops"`
-	Decoys       bool      `json:"decoys"`      // wider-prefix rules at the same priorities, installed before any pod
-	NameInDel    bool      `json:"name_in_del"` // TeardownCfg carries the host veth name (the CNI leaves it empty)
-	EniIndexZero bool      `json:"eni_index_0"` // TeardownCfg without ENI index (ENI already detached)
+	Decoys       bool      `json:"decoys"`         // wider-prefix rules at the same priorities, installed before any pod
+	NameInDel    bool      `json:"name_in_del"`    // TeardownCfg carries the host veth name (the CNI leaves it empty)
+	EniIndexMode int       `json:"eni_index_mode"` // c13kIdx*
 }
 
 func c13kGen(t *rapid.T) c13kScenario {
@@ -147,6 +159,7 @@ func c13kGen(t *rapid.T) c13kScenario {
 		p.Prefix6 = rapid.OneOf(rapid.IntRange(56, 120), rapid.IntRange(8, 128)).Draw(t, "p6")
 		p.NoPeer = rapid.IntRange(0, 4).Draw(t, "nopeer") == 0
 		p.Wide16 = rapid.Bool().Draw(t, "wide16")
+		p.Stale = s.DP == c13DPPolicy && rapid.IntRange(0, 2).Draw(t, "stale") == 0
 		if s.DP == c13DPExclusive && rapid.IntRange(0, 2).Draw(t, "multi") == 0 {
 			p.Multi = true
 			p.NoPeer = rapid.Bool().Draw(t, "nopeer-multi")
@@ -183,7 +196,7 @@ func c13kGen(t *rapid.T) c13kScenario {
 	}
 	s.Ops = rapid.SliceOfN(rapid.Custom(func(t *rapid.T) c13kOp {
 		return c13kOp{
-			Kind: rapid.SampledFrom([]int{c13kSetup, c13kSetup, c13kSetup, c13kCheck, c13kTeardown, c13kTeardown, c13kTeardown}).Draw(t, "kind"),
+			Kind: rapid.SampledFrom([]int{c13kSetup, c13kSetup, c13kSetup, c13kSetup, c13kCheck, c13kTeardown, c13kTeardown, c13kTeardown, c13kTeardown, c13kEniGone}).Draw(t, "kind"),
 			Pod:  rapid.IntRange(0, 2).Draw(t, "pod"),
 		}
 	}), 2, 9).Draw(t, "ops")
@@ -196,7 +209,7 @@ func c13kGen(t *rapid.T) c13kScenario {
 	}
 	s.Decoys = rapid.IntRange(0, 3).Draw(t, "decoys") != 0
 	s.NameInDel = rapid.Bool().Draw(t, "nameindel")
-	s.EniIndexZero = rapid.IntRange(0, 5).Draw(t, "eniindex0") == 0
+	s.EniIndexMode = rapid.SampledFrom([]int{c13kIdxReal, c13kIdxReal, c13kIdxReal, c13kIdxZero, c13kIdxStale}).Draw(t, "eniindexmode")
 	return s
 }
 
@@ -297,6 +310,8 @@ type c13kEnv struct {
 	// known finding C13-exclusive-eth1-host-peer: run multi-network pods with eth0 only
 	dropSecond bool
 	noGuard    bool
+	eniGone    bool
+	staleTable int // table of "another interface" that stale rules point into
 }
 
 func (e *c13kEnv) scaffold(err error, what string) {
@@ -578,7 +593,7 @@ func (e *c13kEnv) verifyLive(p int, when string) {
 				}
 			}
 		}
-		if s.DP == c13DPPolicy {
+		if s.DP == c13DPPolicy && !e.eniGone {
 			gw := net.ParseIP(s.GW4)
 			if v6 {
 				gw = net.ParseIP(s.GW6)
@@ -824,6 +839,21 @@ func (e *c13kEnv) doSetup(p int, when string) {
 	if err := utils.EnsureHostNsConfig(s.V4, s.V6); err != nil {
 		e.fatal("%s: EnsureHostNsConfig: %v", when, err)
 	}
+	if s.DP == c13DPPolicy && s.Pods[p].Stale {
+		for _, a := range e.podAddrs(p) {
+			_, hp, _ := net.ParseCIDR(c13kHostPrefix(a))
+			to := netlink.NewRule()
+			to.Priority, to.Table, to.Dst = toContainerPriority, e.staleTable, hp
+			from := netlink.NewRule()
+			from.Priority, from.Table, from.Src = fromContainerPriority, e.staleTable, hp
+			for _, r := range []*netlink.Rule{to, from} {
+				if err := netlink.RuleAdd(r); err != nil && !os.IsExist(err) {
+					e.scaffold(err, "stale rule")
+				}
+			}
+		}
+		e.c.Label("stale-rules-before-setup")
+	}
 	for i := 0; i < e.ifaces(p); i++ {
 		if s.DP == c13DPExclusive {
 			e.scaffold(c13kVeth(c13kIfEni(p, i), c13kIfEni(p, i)+"p"), "ENI stand-in")
@@ -906,8 +936,11 @@ func (e *c13kEnv) doTeardown(p int, when string) {
 		if s.NameInDel {
 			tc.HostVETHName = c13kHostVeth(p)
 		}
-		if s.EniIndexZero {
+		switch s.EniIndexMode {
+		case c13kIdxZero:
 			tc.ENIIndex = 0
+		case c13kIdxStale:
+			tc.ENIIndex = e.eni.Attrs().Index + 4000
 		}
 		if err := NewPolicyRoute().Teardown(e.ctx, tc, cont); err != nil {
 			e.fatal("%s: Teardown(pod%d) failed: %v", when, p, err)
@@ -996,6 +1029,12 @@ func c13kRunOpt(c *vt.Ctx, s c13kScenario, noGuard bool) {
 		e.eni, err = netlink.LinkByName("eni0")
 		e.scaffold(err, "ENI stand-in")
 	}
+	if s.DP == c13DPPolicy {
+		// the table of "another interface": whatever is looked up there leaves through eth0
+		e.staleTable = 1000 + eth0.Attrs().Index
+		e.scaffold(netlink.RouteAdd(&netlink.Route{LinkIndex: eth0.Attrs().Index, Dst: c13CIDR("0.0.0.0/0"), Gw: c13HostGW4, Table: e.staleTable}), "stale table v4")
+		e.scaffold(netlink.RouteAdd(&netlink.Route{LinkIndex: eth0.Attrs().Index, Dst: c13CIDR("::/0"), Gw: c13HostGW6, Table: e.staleTable}), "stale table v6")
+	}
 	if s.Decoys && s.DP == c13DPPolicy {
 		// somebody else's rules: same priorities, prefixes that contain pod addresses but are wider
 		table := 1000 + e.eni.Attrs().Index
@@ -1038,6 +1077,12 @@ func c13kRunOpt(c *vt.Ctx, s c13kScenario, noGuard bool) {
 		if kind == c13kCheck && e.live[p] == nil {
 			continue
 		}
+		if kind == c13kEniGone && (s.DP != c13DPPolicy || e.eniGone) {
+			continue
+		}
+		if kind == c13kSetup && e.eniGone {
+			continue // nothing to attach pods to any more
+		}
 		when := fmt.Sprintf("op %d (%s pod%d)", i, c13kOpNames[kind], p)
 		c.Trace("%s", when)
 		switch kind {
@@ -1046,7 +1091,18 @@ func c13kRunOpt(c *vt.Ctx, s c13kScenario, noGuard bool) {
 			nSetup++
 		case c13kCheck:
 			e.doCheck(p, when)
+		case c13kEniGone:
+			// e.eni keeps the old attributes: later teardowns are handed the stale index
+			e.scaffold(netlink.LinkDel(e.eni), "delete ENI stand-in")
+			e.eniGone = true
+			c.Label("eni-gone")
 		case c13kTeardown:
+			if e.eniGone && e.live[p] != nil {
+				c.Label("teardown-live-after-eni-gone")
+			}
+			if e.live[p] != nil && s.EniIndexMode == c13kIdxStale {
+				c.Label("teardown-live-stale-eni-index")
+			}
 			if e.live[p] != nil {
 				nTeardownLive++
 			} else {
